@@ -104,6 +104,8 @@ NoRec == << 0, 0, 0, 0, 0, 0 >>
 \* next machine state if line r is explained, Rej otherwise (executions of LmToProjData)
 HistLine(r) ==
   CASE r.e = "Stream" -> IF m.pc = "stream" /\ l = run + 1 THEN [m EXCEPT !.pc = "setup"] ELSE Rej
+    \* the driver rewinds a re-used list-mode data object before the next execution (ListModeData::reset)
+    [] r.e = "Reset" -> IF m.pc = "setup" THEN m ELSE Rej
     [] r.e = "SetUp" ->
          IF m.pc # "setup" THEN Rej
          \* "At least one of store_prompts or store_delayeds should be true"
@@ -150,6 +152,11 @@ XmOk(r, c) ==
        /\ (w[8] # 0 => r.lam[w[8]] = r.lam[w[6]])
        /\ w[10] \in 0..2 /\ (w[10] = 0 <=> ~r.hasAdd)
 RowOfKey(key) == XCfg.rows[RowIdx(P.c, key)]
+\* "maximum absolute segment number to process" of the objective functions: -1 = all, otherwise segments -m..m of the data
+\* (0 = direct planes only); a value above the data's maximum must be refused by the list-mode objective function
+XMaxSeg == EffMaxSeg(XCfg.maxSeg, XCfg.maxSegProc)
+XSegUsed(seg) == seg >= -XMaxSeg /\ seg <= XMaxSeg
+XRefused == XCfg.maxSegProc > XCfg.maxSeg
 Weight(w, v) == (IF w[6] = v THEN w[7] ELSE 0) + (IF w[8] = v THEN w[9] ELSE 0)
 \* forward projection of the image + additive term = 2^QExp
 QExp(w) == XCfg.lam[w[6]] + Log2(w[7] + w[9]) + w[10]
@@ -158,18 +165,18 @@ ViewOfKey(c, key) == ((key[3] - 1) \div NTang(c)) % NViewsOf(c)
 \* data term: sum over the stored prompts e of the subset of  P[bin(e)][v] / (P lambda + a)[bin(e)], in units 2^-k
 XData(sub, k) ==
   [v \in 1..XCfg.nvox |->
-     FoldSet(LAMBDA i, acc : acc + (IF ViewOfKey(P.c, KeyOf(RS[i])) % XCfg.numSubsets = sub
+     FoldSet(LAMBDA i, acc : acc + (IF ViewOfKey(P.c, KeyOf(RS[i])) % XCfg.numSubsets = sub /\ XSegUsed(RS[i].seg)
                                     THEN Weight(RowOfKey(KeyOf(RS[i])), v) * 2 ^ (k - QExp(RowOfKey(KeyOf(RS[i])))) ELSE 0), 0, I)]
 \* sensitivity: back projection of ones over all bins of the subset (all TOF bins: "the TOF kernel sums to 1")
 XSens(sub, k) ==
   [v \in 1..XCfg.nvox |->
-     FoldSet(LAMBDA q, acc : acc + (IF XCfg.rows[q][3] % XCfg.numSubsets = sub THEN Weight(XCfg.rows[q], v) * 2 ^ k ELSE 0), 0, 1..Len(XCfg.rows))]
+     FoldSet(LAMBDA q, acc : acc + (IF XCfg.rows[q][3] % XCfg.numSubsets = sub /\ XSegUsed(XCfg.rows[q][1]) THEN Weight(XCfg.rows[q], v) * 2 ^ k ELSE 0), 0, 1..Len(XCfg.rows))]
 SeqIs(q, f, n) == Len(q) = n /\ \A v \in 1..n : q[v] = f[v]
 \* Hessian of the log-likelihood times the image itself: - sum over the stored prompts e of
 \*   P[bin(e)][v] * (P lambda)[bin(e)] / (P lambda + a)[bin(e)]^2   (P lambda = 2^(QExp - additive code))
 XHess(sub, k) ==
   [v \in 1..XCfg.nvox |->
-     -FoldSet(LAMBDA i, acc : acc + (IF ViewOfKey(P.c, KeyOf(RS[i])) % XCfg.numSubsets = sub
+     -FoldSet(LAMBDA i, acc : acc + (IF ViewOfKey(P.c, KeyOf(RS[i])) % XCfg.numSubsets = sub /\ XSegUsed(RS[i].seg)
                                      THEN Weight(RowOfKey(KeyOf(RS[i])), v)
                                           * 2 ^ (k + QExp(RowOfKey(KeyOf(RS[i]))) - RowOfKey(KeyOf(RS[i]))[10] - 2 * QExp(RowOfKey(KeyOf(RS[i])))) ELSE 0), 0, I)]
 XExpected(r) == IF r.e = "Sens" THEN XSens(r.subset, r.k)
@@ -184,7 +191,7 @@ ConfigOk(r) ==
   /\ LegalConfig(tc) /\ ~TruncSingleRD(tc) /\ ~tc.ge
   /\ LegalFrames(pp)
   /\ r.e = "Config" => (r.maxSegProc >= -1 /\ (r.segIM = -1 \/ r.segIM >= 1) /\ (r.tofIM = -1 \/ r.tofIM >= 1) /\ (r.fileOut => r.fresh))
-  /\ r.e = "GConfig" => (r.numSubsets >= 1 /\ r.cache >= 0 /\ (r.disk => r.cache > 0) /\ (r.xm => XmOk(r, tc)))
+  /\ r.e = "GConfig" => (r.numSubsets >= 1 /\ r.numViews % r.numSubsets = 0 /\ r.maxSegProc >= -1 /\ r.cache >= 0 /\ (r.disk => r.cache > 0) /\ (r.xm => XmOk(r, tc)))
 
 \* gradient executions: GConfig, Stream, Out (histogram of the frame's prompts), Sens ..., Grad ..., End
 \* "The gradient of the list-mode Poisson log-likelihood equals the gradient of the projection-data
@@ -207,8 +214,9 @@ GradOk(r) ==
 GradLine(r) ==
   CASE r.e = "Stream" -> IF m.pc = "stream" /\ l = run + 1 THEN [m EXCEPT !.pc = "g-hist"] ELSE Rej
     [] r.e = "Out" -> IF m.pc = "g-hist" /\ NzValid(P.c, r.nz) /\ (I # {-1} => NzIsHist(P.c, r.nz, I)) THEN [m EXCEPT !.pc = "g-grad"] ELSE Rej
-    [] r.e \in {"Sens", "Grad", "Hess"} -> IF m.pc = "g-grad" /\ r.subset \in 0..(XCfg.numSubsets - 1) /\ GradOk(r) THEN m ELSE Rej
-    [] r.e = "End" -> IF m.pc = "g-grad" /\ ~r.err THEN [m EXCEPT !.pc = "done"] ELSE Rej
+    [] r.e \in {"Sens", "Grad", "Hess"} -> IF m.pc = "g-grad" /\ ~XRefused /\ r.subset \in 0..(XCfg.numSubsets - 1) /\ GradOk(r) THEN m ELSE Rej
+    \* "The 'maximum segment number to process' asked for is larger than the number of segments": set_up must fail then, and only then
+    [] r.e = "End" -> IF m.pc = "g-grad" /\ r.err = XRefused THEN [m EXCEPT !.pc = "done"] ELSE Rej
     [] OTHER -> Rej
 
 (* ------------- ECAT8 32-bit words through CListRecordECAT8_32bit ------------- *)
@@ -247,18 +255,28 @@ EConfigOk(r) == LET tc == TemplGeo(r) IN LegalConfig(tc) /\ ~TruncSingleRD(tc) /
 \*   at or after its end) and the implementation goes on reading events instead of saving an empty frame.
 \* C14-lmgrad-serial: the list-mode data term is identically zero although the projection-data one is not
 \*   (and is what TLC computes, on exact instances).
+\* Re-used LmToProjData object (Config.reuse, with the history fields hadTimeMode / histMaxSeg):
+\* C14-reuse-nstore: an earlier execution of the object used time frames (num_events_to_store = 0); now
+\*   num_events_to_store > 0 is set but the implementation reads on after the requested number of events is stored.
+\* C14-reuse-maxseg: an earlier execution had a template with fewer segments; set_up keeps the output truncated to them.
 AllZero(q) == \A i \in 1..Len(q) : q[i] = 0
 Classify(r) ==
   IF run = 0 \/ TraceLog[run].e = "EConfig" THEN "new"
   ELSE IF TraceLog[run].e = "Config"
-       THEN (IF m.pc = "read" /\ m.empty /\ r.e = "R" THEN "C14-unmarked-frame" ELSE "new")
+       THEN (IF m.pc = "read" /\ m.empty /\ r.e = "R" THEN "C14-unmarked-frame"
+             ELSE IF Has(TraceLog[run], "reuse") /\ TraceLog[run].reuse /\ TraceLog[run].hadTimeMode /\ ~TimeMode(P)
+                     /\ m.pc = "read" /\ m.more = 0 /\ r.e = "R" THEN "C14-reuse-nstore"
+             ELSE IF Has(TraceLog[run], "reuse") /\ TraceLog[run].reuse /\ TraceLog[run].maxSegProc = -1 /\ m.pc = "setup" /\ r.e = "SetUp" /\ ~r.err
+                     /\ TraceLog[run].histMaxSeg < P.c.maxSeg /\ r.outMaxSeg = TraceLog[run].histMaxSeg /\ r.outMinSeg = -r.outMaxSeg
+                     /\ r.segIM = EffInMem(P.segIM, 2 * r.outMaxSeg + 1) /\ r.tofIM = TofIM(P) THEN "C14-reuse-maxseg"
+             ELSE "new")
        ELSE IF r.e = "Grad" /\ m.pc = "g-grad" /\ r.plusSens /\ Len(r.lm) = Len(r.pd) /\ r.subset \in 0..(XCfg.numSubsets - 1)
                  /\ (XCfg.xm => SeqIs(r.pd, XExpected(r), XCfg.nvox)) /\ AllZero(r.lm) /\ ~AllZero(r.pd)
             THEN "C14-lmgrad-serial"
             ELSE "new"
 
 Idle == [pc |-> "idle"]
-Cov0 == [emptyFrameRewind |-> 0, boundaryMark |-> 0, emptyOut |-> 0, multiBatchMem |-> 0, multiBatchDisk |-> 0, ecatTofWords |-> 0, ecatWords |-> 0]
+Cov0 == [subsets3 |-> 0, segZero |-> 0, segRefused |-> 0, reuse |-> 0, emptyFrameRewind |-> 0, boundaryMark |-> 0, emptyOut |-> 0, multiBatchMem |-> 0, multiBatchDisk |-> 0, ecatTofWords |-> 0, ecatWords |-> 0]
 Init == l = 1 /\ run = 0 /\ P = << >> /\ T = << >> /\ m = Idle /\ I = {} /\ bad = << >> /\ cov = Cov0
 Note(b, ln, cls) == IF Len(SelectSeq(b, LAMBDA x : x[2] = cls)) < (IF cls = "new" THEN 200 ELSE 20) THEN Append(b, << ln, cls >>) ELSE b
 \* coverage facts of an ACCEPTED line r (machine state m before the line)
@@ -269,12 +287,19 @@ CovOf(r, nm) ==
           !.emptyFrameRewind = @ + (IF r.e = "Rewind" /\ m.empty THEN 1 ELSE 0),
           \* a time mark exactly on the end of the frame being read
           !.boundaryMark = @ + (IF r.e = "R" /\ r.i > 0 /\ m.pc = "read" /\ IsTime(Stream[r.i]) /\ MsOf(Stream[r.i]) = T.frames[m.f][2] THEN 1 ELSE 0),
-          !.emptyOut = @ + (IF r.e = "Out" /\ ~r.part /\ r.nz = << >> THEN 1 ELSE 0)]
+          !.emptyOut = @ + (IF r.e = "Out" /\ ~r.part /\ r.nz = << >> THEN 1 ELSE 0),
+          \* a completed execution of a re-used LmToProjData object (one setting changed since its previous execution)
+          !.reuse = @ + (IF r.e = "End" /\ Has(TraceLog[run], "reuse") /\ TraceLog[run].reuse THEN 1 ELSE 0)]
   ELSE IF TraceLog[run].e = "GConfig"
   THEN [cov EXCEPT
           \* gradient with more stored prompts than one batch holds
           !.multiBatchMem = @ + (IF r.e = "Grad" /\ r.plusSens /\ XCfg.cache > 0 /\ ~XCfg.disk /\ I # {-1} /\ Cardinality(I) > XCfg.cache THEN 1 ELSE 0),
-          !.multiBatchDisk = @ + (IF r.e = "Grad" /\ r.plusSens /\ XCfg.cache > 0 /\ XCfg.disk /\ I # {-1} /\ Cardinality(I) > XCfg.cache THEN 1 ELSE 0)]
+          !.multiBatchDisk = @ + (IF r.e = "Grad" /\ r.plusSens /\ XCfg.cache > 0 /\ XCfg.disk /\ I # {-1} /\ Cardinality(I) > XCfg.cache THEN 1 ELSE 0),
+          \* non-zero sub-gradients with 3 or more subsets and a matrix with real symmetries (ray tracing)
+          !.subsets3 = @ + (IF r.e = "Grad" /\ r.plusSens /\ ~XCfg.xm /\ XCfg.numSubsets >= 3 /\ ~AllZero(r.pd) THEN 1 ELSE 0),
+          \* direct planes only although the data have oblique segments
+          !.segZero = @ + (IF r.e = "Grad" /\ ~r.plusSens /\ XCfg.maxSegProc = 0 /\ XCfg.maxSeg > 0 THEN 1 ELSE 0),
+          !.segRefused = @ + (IF r.e = "End" /\ r.err THEN 1 ELSE 0)]
   ELSE [cov EXCEPT
           !.ecatWords = @ + (IF r.e = "W" THEN 1 ELSE 0),
           \* event words of a TOF scanner that point beyond the first TOF block
